@@ -68,6 +68,25 @@ CLAIMED.update({
     ),
 })
 
+CLAIMED.update({
+    "C14": dict(
+        technique="path-sensitive must-follow analysis (check_arg_bounds after the last parameter store on every feasible path), def-use check of parameter stores against their normalisers, abstract interpretation of the bound comparator over order types, derived-state analysis",
+        text="All feasible paths of the 8 parameter setters, set_arg_bounds, set_dim and __setattr__ end with a bounds check after the last parameter store; every store to a parameter "
+        "field comes from its normaliser with the model's own dim/latlon/temporal; check_arg_in_bounds is interpreted for all 4 interval types x 5 order types and accepts exactly the "
+        "documented interval; derived quantities have no backing store; set_dim refreshes dimension-dependent state (three classes with dimension-dependent optional-argument bounds are "
+        "recorded known findings). One genuine defect (lat-lon len_scale setter dropping the time ratio) was repaired.",
+        ref="DESIGN.md section 4 C14",
+    ),
+    "C07": dict(
+        technique="path-sensitive must-follow analysis (invalidation after every write of a cache source), structural check of the reuse branch, exactness lint of the change detector",
+        text="For every writer of a source of the cached kriging results (set_condition, model/mean/normalizer/trend setters as inherited by Krige, CondSRF.set_pos / pos / mesh_type) every "
+        "feasible normal-exit path must invalidate the stored results after the last source write; the reuse branch must read exactly what it tested and require unchanged positions. "
+        "Decides clause (b) (stale reuse) structurally; the conditioning formula only by its shape. set_condition was repaired; the un-invalidated setters and the tolerance-based "
+        "position detector are recorded known findings with concrete failing histories.",
+        ref="DESIGN.md section 4 C07",
+    ),
+})
+
 NOT_APPLICABLE = {
     "C01": "distributional property over seeds (ensemble mean/covariance at Monte-Carlo rate); no code-shape clause beyond those decided under C04/C11/C12 - needs sampling or quadrature, a different technique family",
 }
@@ -120,7 +139,7 @@ def main():
     print("MANIFEST.json: %d checks, %d not_applicable" % (len(checks), len(na)))
 
 
-SOURCE_COMMITS = ["c203823", "0fd70cf", "8261140", "84533cc", "edeae19", "d657645"]
+SOURCE_COMMITS = ["c203823", "0fd70cf", "8261140", "84533cc", "edeae19", "d657645", "566cb9d", "703cc68"]
 
 if __name__ == "__main__":
     main()
